@@ -60,6 +60,9 @@ ALPHAS = {
     # second depth table per hole, padding of short value arrays, adding through the group only
     "TABLES": dict(BASE, ops=["add", "update", "rm_data", "rm_group", "reopen"], groups=("G", "K", "H"), lens={"depth": (1, 2), "interval": (1,)},
                    holes=("A", "B", "C"), short=True, how=("loc", "grp")),
+    # text data under a label shared between holes: entries of growing width
+    "TEXT": dict(BASE, ops=["add_hole", "add", "update", "rm_data", "reopen"], names=("t",), lens={"depth": (1, 2), "interval": (1,)},
+                 holes=("A", "B", "C"), via=("ws",)),
 }
 
 QUICK = [
@@ -70,6 +73,7 @@ QUICK = [
     ("S2r", V20, 2, "COPY"),
     ("S5", V21, 2, "TABLES"),
     ("S6", V21D, 2, "READD"),
+    ("S1", V20, 3, "TEXT"),
 ]
 THOROUGH = [
     ("S0", V21D, 5, "BUILD"),
@@ -83,6 +87,7 @@ THOROUGH = [
     ("S2", V20, 3, "COPY"),
     ("S2r", V21X, 3, "COPY"),
     ("S5", V20, 3, "TABLES"),
+    ("S1", V21, 4, "TEXT"),
 ]
 
 
